@@ -120,6 +120,18 @@ def generate(rng, tier):
                 if any(o[0] == "str" and ("\x1b[" in o[1] or "\x9b" in o[1]) for o in items):
                     continue
                 yield ["join", sep, [list(o) for o in items]]
+    # 4b. join over a str / a FmtStr given as the iterable itself (run() passes the whole string when every item is
+    #     one character)
+    for _ in range(400 if thorough else 60):
+        sep = rng.choice(seps + [canon.rand_runs(rng, maxruns=2, maxlen=2)])
+        if rng.random() < 0.5:
+            text = canon.rand_text(rng, rng.choice([2, 3, 5])).replace("\x1b", "e").replace("\x9b", "c")
+            if len(text) >= 2:
+                yield ["join", sep, [["str", c] for c in text]]
+        else:
+            cells = [[c, st] for t, st in canon.rand_runs(rng, maxruns=3, maxlen=3) for c in t]
+            if len(cells) >= 2:
+                yield ["join", sep, [["fs", [[c, list(st)]]] for c, st in cells]]
     # 5. random larger
     for _ in range(20000 if thorough else 1200):
         runs = canon.rand_runs(rng, maxruns=6, maxlen=8)
@@ -243,6 +255,11 @@ def _run(inp, f):
         # str.join takes any iterable: a list, or something that can be walked only once (a generator, map, iter)
         shape = (len(items) + len(inp[1])) % 3
         arg = items if shape == 0 else iter(items) if shape == 1 else (x for x in items)
+        # ... or a str / a FmtStr itself, which are iterables of their characters: when every item is one character
+        if len(items) >= 2 and all(o[0] == "str" and len(o[1]) == 1 for o in inp[2]):
+            arg = "".join(items)
+        elif len(items) >= 2 and all(o[0] == "fs" and len(o[1]) == 1 and len(o[1][0][0]) == 1 for o in inp[2]):
+            arg = canon.build_fs([o[1][0] for o in inp[2]], share=False)
         return canon.outcome(lambda: f.join(arg), observe)
     raise ValueError(kind)
 
